@@ -1,21 +1,146 @@
-"""C02 — proposed changes are transactional: exact revert, accept = reported change."""
+"""C02 — proposed changes are transactional: exact revert, accept = reported change.
+
+Two streams: (1) the catchment model (catchgen.run_tx_correspondence, shared with C10/C11);
+(2) the toy models dumb / modumb (harness/c02dumb.go, DumbModels.v): operation histories on several handles."""
+from concurrent.futures import ThreadPoolExecutor
 import catchgen as cg
+import coqgen as g
+
+DHEADER = g.HEADER + "From Crem Require Import Base.Res Base.Fl DumbModels DumbModelsCorr.\nOpen Scope Z_scope.\n"
+
+
+def _oz(v):
+    return "None" if v is None else "(Some %s)" % g.z(v)
+
+
+def _ofl(v):
+    return "None" if v is None else "(Some %s)" % g.fl(v)
+
+
+def _zl(xs):
+    return g.lst([g.z(x) for x in xs])
+
+
+def dumb_op(o):
+    k = o["op"]
+    if k == "SETP":
+        return "(DSetParams %s %s %s)" % (_oz(o.get("init")), _oz(o.get("min")), _oz(o.get("max")))
+    if k in ("TRY", "DO"):
+        return "(%s %s)" % ({"TRY": "DTry", "DO": "DDo"}[k], g.b(o["up"]))
+    if k in ("SETACT", "SETACTU"):
+        return "(%s %s %s)" % ({"SETACT": "DSetAct", "SETACTU": "DSetActU"}[k], g.nat(o["i"]), g.b(o["b"]))
+    return {"INIT": "DInit", "VALID": "DValid", "ACCEPT": "DAccept", "REVERT": "DRevert", "UNDO": "DUndo", "CLONE": "DClone"}[k]
+
+
+def dumb_case(c):
+    steps = ["(mkDStep %s %s %s %s)" % (g.nat(s["h"]), dumb_op(s["op"]), g.b(s["valid"]), g.lst([_zl(o) for o in s["obs"]]))
+             for s in c["steps"]]
+    return "(mkDCase %s\n  %s)" % (g.lst([_zl(o) for o in c["init"]]), g.lst(steps))
+
+
+def modumb_op(o):
+    k = o["op"]
+    if k == "SETP":
+        n = o.get("npu")
+        return "(MSetParams %s %s %s %s)" % (_ofl(o.get("i0")), _ofl(o.get("i1")), _ofl(o.get("i2")),
+                                            "None" if n is None else "(Some %s)" % g.nat(n))
+    if k in ("TRY", "DO"):
+        return "(%s %s)" % ({"TRY": "MTry", "DO": "MDo"}[k], g.nat(o["pick"]))
+    if k in ("SETACT", "SETACTU"):
+        return "(%s %s %s)" % ({"SETACT": "MSetAct", "SETACTU": "MSetActU"}[k], g.nat(o["i"]), g.b(o["b"]))
+    return {"INIT": "MInit", "VALID": "MValid", "ACCEPT": "MAccept", "REVERT": "MRevert", "UNDO": "MUndo", "CLONE": "MClone"}[k]
+
+
+def mobs(o):
+    if o is None:
+        return "None"
+    return "(Some (mkMO %s %s %s %s %s))" % (g.lst([g.b(x == 1) for x in o["active"]]), _zl(o["totals"]), _zl(o["changes"]),
+                                             _zl(o["undoable"]), g.lst([_zl(r) for r in o["vals"]]))
+
+
+def modumb_case(c):
+    steps = ["(mkMStep %s %s %s %s)" % (g.nat(s["h"]), modumb_op(s["op"]), g.b(s["panic"]), g.lst([mobs(o) for o in s["obs"]]))
+             for s in c["steps"]]
+    return "(mkMCase %s\n  %s)" % (g.lst([mobs(o) for o in c["init"]]), g.lst(steps))
+
+
+def _history(c):
+    return [dict(s["op"]) for s in c["steps"]]
+
+
+def run_toy_models(ctx):
+    """harness C02 <tier> dumb -> gen/cases_C02_dumb_<k>.v, gen/cases_C02_modumb_<k>.v"""
+    lines = ctx.run_harness("C02", [ctx.tier, "dumb"], timeout=1200)
+    stats = {}
+    for l in lines:
+        if l.get("kind") == "oracle":
+            ctx.failing_inputs.append(l)
+        if l.get("kind") == "stat":
+            stats = l["stats"]
+    dcases = [l for l in lines if l.get("kind") == "dumbcase"]
+    mcases = [l for l in lines if l.get("kind") == "modumbcase"]
+    ctx.oblige("harness:C02 toy-model stream produced cases for both models", bool(dcases) and bool(mcases),
+               "dumb %d, modumb %d" % (len(dcases), len(mcases)))
+    if not (dcases and mcases):
+        ctx.broken.append("the toy-model stream of the C02 harness produced no cases")
+    jobs, k = [], 0
+    for sh in g.chunks(dcases, 60 if ctx.tier == "quick" else 250):
+        body = DHEADER + "Definition cases : list dcase := %s.\n" % g.lst([dumb_case(c) for c in sh])
+        body += "Definition M := Eval vm_compute in d_mismatches cases 0.\nPrint M.\n"
+        jobs.append(("cases_C02_dumb_%d" % k, "dumb", sh, body))
+        k += 1
+    k = 0
+    for sh in g.chunks(mcases, 45 if ctx.tier == "quick" else 200):
+        body = DHEADER + "Definition cases : list mcase := %s.\n" % g.lst([modumb_case(c) for c in sh])
+        body += "Definition M := Eval vm_compute in m_mismatches cases 0.\nPrint M.\n"
+        jobs.append(("cases_C02_modumb_%d" % k, "modumb", sh, body))
+        k += 1
+
+    def one(job):
+        name, model, sh, body = job
+        return job, ctx.correspondence(name, body, label="correspondence:C02:%s:%s" % (model, name), ncases=len(sh))
+
+    with ThreadPoolExecutor(max_workers=8) as ex:
+        results = list(ex.map(one, jobs))
+    for (name, model, sh, body), idx in results:
+        for i in (idx or [])[:3]:
+            if i < len(sh):
+                ctx.notes.append({"mismatch": {"model": model, "file": name, "history": _history(sh[i])}})
+    return dcases, mcases, stats
 
 
 def run(ctx):
     ctx.build_harness()
     ctx.check_theorems("Properties/C02.v")
     cases = cg.run_tx_correspondence(ctx, "C02")
+    catch_stats = ctx.stats
+    dcases, mcases, toy_stats = run_toy_models(ctx)
+    ctx.stats = dict(catch_stats)
+    ctx.stats.update({"toy:" + k: v for k, v in toy_stats.items()})
     distinct = len({(c["dataset"], str(c["bits"]), c["i"], c["accept"]) for c in cases})
+    toy_steps = sum(len(c["steps"]) for c in dcases) + sum(len(c["steps"]) for c in mcases)
+    toy_distinct = len({("d", str(_history(c))) for c in dcases} | {("m", str(_history(c))) for c in mcases})
     ctx.coverage.update({
-        "evaluations": len(cases), "distinct_nontrivial": distinct,
-        "rule": "(start set, proposed action, decision) triples on the two shipped data sets and a row-permuted variant of ValidModel (Subcatchments rows reversed, Actions rows rotated): start sets of density 0.1/0.5/0.9, "
+        "evaluations": len(cases) + toy_steps, "distinct_nontrivial": distinct + toy_distinct,
+        "rule": "CATCHMENT: (start set, proposed action, decision) triples on the two shipped data sets and a row-permuted variant of ValidModel (Subcatchments rows reversed, Actions rows rotated): start sets of density 0.1/0.5/0.9, "
                 "a third of the actions per state (all in the thorough tier), both decisions; model vs implementation on the "
                 "observables before / while proposed / after, the six reported changes; implementation-side oracle: values unchanged "
                 "while proposed, accept = total + reported change, revert restores totals, per-unit values, action states and the "
-                "solution encoding, locality. distinct_nontrivial = distinct (data set, start set, action, decision)",
-        "exhaustive": False})
+                "solution encoding, locality. TOY MODELS (dumb, modumb): random operation histories (SetParameters from a palette that puts the "
+                "initial value on / next to / outside [Minimum, Maximum]; Initialise; scripted TryRandomChange / DoRandomChange; ChangeIsValid; "
+                "Accept; Revert; Undo; SetManagementAction(Unobserved); DeepClone) on up to 4 handles, what EVERY handle reports compared "
+                "with the executable model after EVERY operation (value / totals, reported changes, undoable values, per-unit values, action "
+                "flags, panics), plus the same clauses evaluated on the implementation alone. evaluations = catchment triples + toy-model "
+                "operations; distinct_nontrivial = distinct (data set, start set, action, decision) + distinct toy-model histories",
+        "exhaustive": False,
+        "catchment_cases": len(cases), "toy_dumb_histories": len(dcases), "toy_modumb_histories": len(mcases), "toy_operations": toy_steps})
+    ctx.samples = []
     if cases:
         c = cases[0]
-        ctx.samples = [{k: c[k] for k in ("dataset", "bits", "i", "accept", "changes")}]
-    ctx.assumptions = ["A-FLOAT (DESIGN 3a); 'exactly' is on the reporting grid"]
+        ctx.samples.append({k: c[k] for k in ("dataset", "bits", "i", "accept", "changes")})
+    if dcases:
+        ctx.samples.append({"model": "dumb", "history": _history(dcases[0])[:8], "reports_after_last_of_these": dcases[0]["steps"][min(7, len(dcases[0]["steps"]) - 1)]["obs"]})
+    if mcases:
+        ctx.samples.append({"model": "modumb", "history": _history(mcases[0])[:8]})
+    ctx.assumptions = ["A-FLOAT (DESIGN 3a); 'exactly' is on the reporting grid",
+                       "toy models: parameters inside DumbModels.mp_small (|initial value| <= 1e9, <= 1000 planning units); dumb initial value on the thousandths grid"]
